@@ -208,6 +208,7 @@ func genDloop(seed uint64, n int, outp string) {
 func oracleDloop(in, outp string) {
 	out := wire.Create(outp)
 	defer out.Close()
+	defer dumpStats(outp)
 	l := newDloop("EDS")
 	verdict, open, idx := "", false, 0
 	flush := func() {
@@ -239,7 +240,14 @@ func oracleDloop(in, outp string) {
 			}
 			continue
 		}
+		if f[0] == "srecv" && len(f) > 3 && f[3] == "0" {
+			stat("op.undelivered-answer")
+		}
 		if len(l.c2s) == 0 && verdict == "" {
+			stat("clause.record-is-the-fold-of-every-change-sent", "type."+l.ty)
+			if len(l.pendSub) == 0 && len(l.pendUnsub) == 0 {
+				stat("clause.quiescent-record-matches")
+			}
 			var rec sets.String
 			if w != nil {
 				rec = w.ResourceNames
